@@ -157,7 +157,7 @@ theorem passthrough_exact (cfg : Cfg) (m : M) (l : L)
   have e10 := handleSubmoduleLog_not_mine cfg m l no.submodule
   have e11 : handleSubmoduleShort cfg m l = .ok (false, m) := by
     unfold handleSubmoduleShort submoduleShortTest
-    rcases hst with h | h <;> simp [h, isHunkHeader]
+    rcases hst with h | h <;> simp [h, isHunkHeader, pairableHunkHeader]
   have e12 := handleMergeConflict_not_mine cfg m l hnc hnm
   have e13 : handleHunkLine cfg m l = .ok (false, m) := by unfold handleHunkLine; simp [hnh]
   have e15 : handleBlame cfg (emit m) l = .ok (false, emit (emit m)) := by
